@@ -164,6 +164,14 @@ fn arb_merge_value(depth: u32) -> BoxedStrategy<Node> {
         4 => arb_source(depth),
         2 => prop::collection::vec(arb_source(depth), 0..3).prop_map(|v| Node::seq(true, v)),
         1 => (arb_source(depth), arb_source(0)).prop_map(|(a, b)| Node::seq(false, vec![a, Node::seq(true, vec![b])])),
+        // nested sequences whose inner elements collide on keys (the order inside the inner
+        // sequence matters: a later element overrides an earlier one, recursively)
+        2 => (prop::collection::vec(arb_source(0), 2..4), prop::collection::vec(arb_source(0), 0..3), any::<bool>()).prop_map(|(inner, outer, first)| {
+            let nested = Node::seq(true, inner);
+            let mut items: Vec<Node> = outer;
+            if first { items.insert(0, nested) } else { items.push(nested) }
+            Node::seq(true, items)
+        }),
         1 => prop::sample::select(vec!["~", "null", "Null", "NULL"]).prop_map(s),
     ]
     .boxed()
